@@ -1213,6 +1213,12 @@ impl InstrFormat for TimelineFormat06 {
     }
 
     fn write_instr(&self, f: &mut BinWriter, emitter: &dyn Emitter, instr: &RawInstr) -> WriteResult {
+        if (instr.time, instr.extra_arg.unwrap_or(0)) == (-1, 4) {
+            // (see read_instr: this is what the end of a timeline looks like)
+            return Err(emitter.as_sized().emit(error!(
+                "ins_{} with time -1 and arg0 4 cannot be written: that is how the end of a timeline is marked", instr.opcode,
+            )));
+        }
         f.write_i16(llir::fit_header_field(emitter, instr, "time", instr.time as i64)?)?;
         f.write_i16(instr.extra_arg.unwrap_or(0) as _)?;
         f.write_u16(instr.opcode)?;
